@@ -3,6 +3,7 @@ import JV.Drv.Common
 import JV.Spec.Cbor
 import JV.Spec.BinFormats
 import JV.Model.Cbor
+import JV.Model.Msgpack
 namespace JV
 namespace Drv
 open Spec.Cbor
@@ -107,6 +108,11 @@ def binaryLine : List String → String
   | "menc" :: "cbor" :: toks =>
     match cvOfTokens toks with
     | some (v, []) => "ok x" ++ Wire.hexOfBytes (Model.Cbor.encode v)
+    | _ => ""
+  | "menc" :: "msgpack" :: toks =>
+    -- bin menc msgpack <wire value (core)>  →  the bytes encode_msgpack writes for it
+    match cvOfTokens toks with
+    | some (v, []) => "ok x" ++ Wire.hexOfBytes (Model.Msgpack.encode v)
     | _ => ""
   | _ => ""
 
